@@ -11,8 +11,8 @@ from .. import rfa_common as R
 
 ID = "C02"
 THREADS = True       # part of the cases run concurrently in threads of one interpreter (the schedule dimension)
-MODULES = ["TWV.Properties.C02", "TWV.Tie.Funfit"]
-TRANSLATORS = ["t1_funfit"]
+MODULES = ["TWV.Properties.C02", "TWV.Tie.Funfit", "TWV.Tie.MatchFlow", "TWV.Tie.WeaverStep"]
+TRANSLATORS = ["t1_funfit", "t11_match", "t9_weaver"]
 RULE = ("pipelines Weaver(x, y)[.append_one_sample(p)].recreate_from_average(n, C, **kw).integral_match(target, 'rectangle') "
         "on random series of 2..20 points (thorough: ..60 and every bundled dataset x 6 strategies x n in {2,3,10,60}), "
         "uniform / non-uniform, six strategies with parameters in the documented ranges, n in 2..12 (thorough ..64), both "
